@@ -102,7 +102,9 @@ inductive Ob
   | cancelConnect
   /-- request bytes handed to the transport of connection `conn` -/
   | write (conn serial : Nat) (id : Int)
-  /-- the same, but the transport is disconnecting: the bytes go nowhere -/
+  /-- the same, but `loseConnection()` has already been called on the transport.  Whether the bytes still
+      reach the broker is outside the model: `iosim.FakeTransport` drops them, a real TCP transport buffers and
+      flushes them before closing.  Counted as a write (`Monitor.C10.writes`). -/
   | writeLost (conn serial : Nat) (id : Int)
   | lose (conn : Nat)
   | fire (serial : Nat) (id : Int) (r : Res)
